@@ -3,6 +3,7 @@ import PromProofs.IntervalsAdd
 import PromProofs.IntervalsIter
 import PromProofs.IntervalsJudge
 import PromProofs.Tombstones
+import PromProofs.TombstonesTrunc
 /-
   C20 — Deletion removes exactly the requested data (mechanism level).
   Property theorems only; helper lemmas live in PromProofs.
@@ -183,5 +184,17 @@ theorem read_8_byte_file_panics_witness (crc : Bytes → UInt32) (c : Bytes) (hc
   have hd : (be32 magic).drop 4 = [] := List.drop_of_length_le (by simp [be32_length])
   rw [hd]
   rfl
+
+open Prom.Tombstones in
+/-- `TruncateBefore(t)` on a canonical group drops exactly the intervals lying entirely before `t`;
+    the result is canonical, no deletion at or after `t` is lost, none is invented. -/
+theorem truncate_before_exact (t : Int) (ivs : Intervals) (hc : Canon ivs) :
+    truncIvs t ivs = ivs.filter (fun iv => decide (t ≤ iv.maxt)) ∧ Canon (truncIvs t ivs) ∧
+    (∀ t', t ≤ t' → (covers (truncIvs t ivs) t' ↔ covers ivs t')) ∧
+    (∀ t', covers (truncIvs t ivs) t' → covers ivs t') :=
+  ⟨truncIvs_eq_filter t ivs hc, truncIvs_covers t ivs hc⟩
+
+open Prom.Tombstones in
+example : Canon [⟨1, 2⟩, ⟨4, 9⟩, ⟨20, 30⟩] ∧ truncIvs 5 [⟨1, 2⟩, ⟨4, 9⟩, ⟨20, 30⟩] = [⟨4, 9⟩, ⟨20, 30⟩] := by decide
 
 end Prom.C20
